@@ -61,6 +61,7 @@ theorem det_params (C : Ctx) (hC : C.det) : (C.roundParams.1.isNone && C.roundPa
     simp [Ctx.roundParams, hk']
   | mpfix nmin rm k nz o => have hk : k = some 0 := hC; subst hk; simp [Ctx.roundParams, widenN]
   | mpbfix c => have hk : c.k = some 0 := hC; simp [Ctx.roundParams, widenN, hk]
+  | exp c => exact absurd hC (by simp [Ctx.det])
 
 theorem all_fv (fvs : List FV) :
     (fvs.map NV.fv).all nvIsFloat = true := by
@@ -92,6 +93,7 @@ theorem roundAtCore_zero (C : Ctx) (hC : C.det) (z : RF) (hz : z.c = 0) :
   | efloat c => simp [Ctx.roundAtCore, mpbRoundAt, floatSpecial, hz]
   | mpfix nmin rm k nz o => simp [Ctx.roundAtCore, fixedSpecial, hz]
   | mpbfix c => simp [Ctx.roundAtCore, mpbfixRoundAt, fixedSpecial, hz]
+  | exp c => exact absurd hC (by simp [Ctx.det])
 
 /-- what MPFR returns for an operation whose exact result is the dyadic value `z`
 (zero keeps the sign `z.s`; non-zero is rounded to odd at the working precision) -/
